@@ -87,7 +87,7 @@ RULE_PATHS = ("cases = complete paths of the lazy Pipeline automaton enumerated 
 
 
 def run(prop, tier, seed, replay=None, gen=None, drv_extra=None, facts=facts_of, design=None, produce=None,
-        rule=RULE_PATHS):
+        rule=RULE_PATHS, extra=None):
     verdict = Verdict(prop, tier, seed)
     work = Work(prop)
     try:
@@ -146,6 +146,8 @@ def run(prop, tier, seed, replay=None, gen=None, drv_extra=None, facts=facts_of,
             "between them is the real code assembled by fx",
             "panics are injected in mechanisms only",
         ]
+        if extra:
+            extra(verdict, work, tier, seed)
         return verdict.finish()
     finally:
         work.close()
